@@ -31,6 +31,7 @@ type Ctx struct {
 	TPkg             *types.Package
 	Funcs            []*ssa.Function // every function of the package: functions, methods, closures (source order)
 	globalConst      map[*ssa.Global]ssa.Value
+	boundCache       map[*ssa.Function]*boundClosure
 	constructedCache map[*ssa.UnOp]ssa.Value
 	constructedBool  map[string]bool
 	fieldStored      map[string]bool // "T#k": some instruction of the package stores into field k of T
@@ -267,6 +268,14 @@ func (c *Ctx) resolve(v ssa.Value, seen map[ssa.Value]bool) ssa.Value {
 		case *ssa.FreeVar:
 			r := c.addrRoot(x)
 			if r == v {
+				return v
+			}
+			v = r
+		case *ssa.Parameter:
+			// a parameter of a function literal that is called (or started) right where it is written, once:
+			// `go func(ctx context.Context, cli *BaseClient) {…}(ctxKeepAlive, baseCli)` — the argument of that call
+			r := c.literalArg(x)
+			if r == nil {
 				return v
 			}
 			v = r
@@ -1452,4 +1461,47 @@ func (c *Ctx) constGlobal(g *ssa.Global) ssa.Value {
 		}
 	}
 	return c.globalConst[g]
+}
+
+// literalArg: for a parameter of an anonymous function whose only closure value is used by exactly one call, go or defer
+// instruction as the callee, the argument passed for it there; nil otherwise.
+func (c *Ctx) literalArg(p *ssa.Parameter) ssa.Value {
+	fn := p.Parent()
+	if fn == nil || fn.Parent() == nil {
+		return nil
+	}
+	sites := c.makeClosures[fn]
+	var callee ssa.Value
+	switch {
+	case len(sites) == 1:
+		callee = sites[0]
+	case len(sites) == 0 && len(fn.FreeVars) == 0:
+		return nil // a literal without captures is used as a plain function value: its uses are not indexed
+	default:
+		return nil
+	}
+	refs := callee.Referrers()
+	if refs == nil {
+		return nil
+	}
+	var cc *ssa.CallCommon
+	n := 0
+	for _, u := range *refs {
+		if _, isDbg := u.(*ssa.DebugRef); isDbg {
+			continue
+		}
+		n++
+		if k := callCommon(u); k != nil && k.Value == callee && !k.IsInvoke() {
+			cc = k
+		}
+	}
+	if n != 1 || cc == nil {
+		return nil
+	}
+	for i, q := range fn.Params {
+		if q == p && i < len(cc.Args) {
+			return cc.Args[i]
+		}
+	}
+	return nil
 }
